@@ -332,7 +332,7 @@ def cells(tier, seed):
     return out
 
 
-MECHS = ["state_dict_fresh", "state_dict_used", "pickle", "torch_save", "deepcopy"]
+MECHS = ["state_dict_fresh", "state_dict_used", "state_dict_cast", "pickle", "torch_save", "deepcopy"]
 
 
 def run_cell(cell, seed):
@@ -373,6 +373,10 @@ def run_cell(cell, seed):
             if mech.startswith("state_dict"):
                 sd = {k: v.detach().clone() for k, v in model.state_dict().items()}
                 target, _, _, _ = make(spec, 1, seed)
+                if mech == "state_dict_cast":
+                    # the receiving model went through a dtype / device conversion before loading: every parameter and buffer is replaced
+                    # by a new tensor (what .to(device) / .double() do through Module._apply; same values, so nothing is rounded)
+                    target = target._apply(lambda t: t.clone())
                 if mech == "state_dict_used":
                     target.eval()
                     with torch.no_grad():
